@@ -78,6 +78,8 @@ def run(repo, chk):
 
     f = guard_rule(en.node, ctxvars)
     chk.analysed["_enter acquisitions"] = f["acquires"]
+    from .shared import refused_enter_obligations
+    refused_enter_obligations(repo, chk, "R17.1")
     chk.ob("R17.1", "probe.Probe._enter:guard-present", f["tests"] == 1, en.where, "exactly one test of self._activated")
     chk.ob("R17.1", "probe.Probe._enter:guard-dominates-acquisitions", f["dominated"], en.where,
            f"every path to an acquisition ({f['acquires']}) passes the `_activated` test first")
@@ -184,7 +186,9 @@ def run(repo, chk):
     # R17.4
     tg = repo.func("probe._terminate_global_probes")
     deco = [norm(d) for d in tg.node.decorator_list]
-    chk.ob("R17.4", "probe._terminate_global_probes:atexit", "atexit.register" in deco, tg.where, "registered with atexit")
+    mod_calls = [norm(st.value) for st in repo.module("probe").tree.body if isinstance(st, ast.Expr) and isinstance(st.value, ast.Call)]
+    chk.ob("R17.4", "probe._terminate_global_probes:atexit", "atexit.register" in deco or "atexit.register(_terminate_global_probes)" in mod_calls, tg.where,
+           "registered with atexit (as a decorator, or by a module-level call after the definition: register() returns the function unchanged)")
     loops = [n for n in walk_local(tg.node) if isinstance(n, ast.For)]
     ok = len(loops) == 1 and norm(loops[0].iter) in ("list(global_probes)", "tuple(global_probes)", "set(global_probes)", "global_probes.copy()") \
         and any(isinstance(c, ast.Call) and isinstance(c.func, ast.Attribute) and c.func.attr == "deactivate" for c in ast.walk(loops[0]))
